@@ -79,6 +79,8 @@ TForeign  == IsEvent("foreign") /\ Do(IF E.ip \in Net1 THEN ForeignTrafficM(E.m,
                                        ELSE Quiet /\ UNCHANGED <<lease, next, file, hosts, ment>>, PropIdle)
 TPurge    == IsEvent("purge") /\ Do(PurgeHostsM, PropIdle)
 TRestart  == IsEvent("restart") /\ Do(RestartM, RestartR)
+TReload   == IsEvent("reload") /\ Do(ReloadM, ReloadR)
+TReconf   == IsEvent("reconf") /\ Do(ReconfM, ReconfR)
 
 \* the library panicked inside this step (reported by the check itself); the driver abandons the
 \* behaviour, the next line is a reset
@@ -91,7 +93,7 @@ TraceInit == /\ l = 1 /\ TLCSet(HW, 0) /\ TLCSet(VI, <<>>) /\ TLCSet(KF, {})
              /\ acked = [j \in CIDs |-> Nil] /\ obs = [j \in CIDs |-> NoObs] /\ verdict = {}
 
 TraceNext == \/ TPanic \/ TReset \/ TDiscover \/ TRequest \/ TDecline \/ TRelease \/ TCapture \/ TUncapture
-             \/ TTick \/ TForeign \/ TPurge \/ TRestart
+             \/ TTick \/ TForeign \/ TPurge \/ TRestart \/ TReload \/ TReconf
 
 TraceSpec == TraceInit /\ [][TraceNext]_tvars
 
